@@ -91,4 +91,6 @@ def entries(mod):
             out.append(("wrapper", f))
         elif re.search(r"yorel::yomm2::detail::thunk<.*>::fn\(", d):
             out.append(("thunk", f))
+        elif re.search(r"yorel::yomm2::method<.*>::(not_implemented|ambiguous)_handler\(", d):
+            out.append(("handler", f))     # what the error cells of a dispatch table point to
     return out
